@@ -20,9 +20,35 @@ func (w *Worker) bytesAsStr(s *State, v Value) StrV {
 
 func init() {
 	I := intrinsics
+	isStrict := func(c *icall) bool {
+		if p, ok := c.args[0].(PtrV); ok && p.Obj != 0 {
+			if o, ok := c.s.Heap[p.Obj].(OpaqueObj); ok {
+				return strings.HasSuffix(o.ID, ".Strict")
+			}
+		}
+		return false
+	}
 	encOf := func(c *icall) *base64.Encoding {
 		if p, ok := c.args[0].(PtrV); ok && p.Obj != 0 {
 			if o, ok := c.s.Heap[p.Obj].(OpaqueObj); ok {
+				strict := strings.HasSuffix(o.ID, ".Strict")
+				o.ID = strings.TrimSuffix(o.ID, ".Strict")
+				pick := func(e *base64.Encoding) *base64.Encoding {
+					if strict {
+						return e.Strict()
+					}
+					return e
+				}
+				switch {
+				case strings.HasSuffix(o.ID, "RawURLEncoding"):
+					return pick(base64.RawURLEncoding)
+				case strings.HasSuffix(o.ID, "RawStdEncoding"):
+					return pick(base64.RawStdEncoding)
+				case strings.HasSuffix(o.ID, "URLEncoding"):
+					return pick(base64.URLEncoding)
+				case strings.HasSuffix(o.ID, "StdEncoding"):
+					return pick(base64.StdEncoding)
+				}
 				switch {
 				case strings.HasSuffix(o.ID, "RawURLEncoding"):
 					return base64.RawURLEncoding
@@ -50,7 +76,14 @@ func init() {
 		c.s.addPC(tEq(d, b.term()))
 		c.s.addPC(ok)
 		c.s.addPC(tEq(tEq(e, `""`), tEq(b.term(), `""`))) // empty iff the input is empty
-		if enc := encOf(c); enc == base64.URLEncoding || enc == base64.StdEncoding {
+		// the alphabet has no CR or LF
+		c.s.addPC(tNot(strContains(opaqueStr(e), litStr("\n"))))
+		c.s.addPC(tNot(strContains(opaqueStr(e), litStr("\r"))))
+		if p, ok := c.args[0].(PtrV); ok && p.Obj != 0 && func() bool {
+			o, ok := c.s.Heap[p.Obj].(OpaqueObj)
+			id := strings.TrimSuffix(o.ID, ".Strict")
+			return ok && !strings.HasSuffix(id, "RawURLEncoding") && !strings.HasSuffix(id, "RawStdEncoding")
+		}() {
 			c.s.addPC("(= (mod (str.len " + e + ") 4) 0)") // padded encodings
 		}
 		if c.s.B64 == nil {
@@ -71,6 +104,26 @@ func init() {
 			}
 			return nil, false
 		}
+		// "\r" and "\n" are ignored by the decoder (documented; also in Strict mode): literal
+		// CR/LF pieces of a concatenation are dropped before the lookup
+		if sv.K == SOpaque {
+			leaves := flattenConcat(sv.T)
+			if len(leaves) > 1 {
+				kept := litStr("")
+				dropped := false
+				for _, l := range leaves {
+					lv := opaqueStr(l)
+					if lv.K == SLit && strings.Trim(lv.S, "\r\n") == "" {
+						dropped = true
+						continue
+					}
+					kept = strConcat(kept, lv)
+				}
+				if dropped {
+					sv = kept
+				}
+			}
+		}
 		if orig, hit := c.s.B64[sv.term()]; hit && sv.K == SOpaque {
 			// decoding what was encoded on this path gives back the very same bytes
 			c.setTuple(c.w.bytesOfString(c.s, orig), IfaceV{})
@@ -78,6 +131,13 @@ func init() {
 		}
 		ok := c.w.applyUF(c.s, "b64ok", []Value{sv}, "Bool", "bool")
 		d := c.w.applyUF(c.s, "b64dec", []Value{sv}, "String", "string")
+		if isStrict(c) {
+			// a Strict decoder accepts, among strings without CR/LF, only the canonical spelling:
+			// ok => contains CR or LF, or enc(dec(s)) = s. (The non-strict decoder also accepts
+			// spellings with non-zero trailing bits: no such axiom.)
+			e := c.w.applyUF(c.s, "b64enc", []Value{opaqueStr(d)}, "String", "string")
+			c.s.addPC(tImp(ok, tOr(strContains(sv, litStr("\n")), strContains(sv, litStr("\r")), tEq(e, sv.term()))))
+		}
 		depth := len(c.s.stack())
 		dest := c.dest
 		e := c.opaqueErr(litStr("illegal base64 data"))
@@ -92,6 +152,17 @@ func init() {
 					st.stack()[depth-1].Env[dest] = TupleV{[]Value{SliceV{}, e}}
 				}
 			})
+	}
+	I["(encoding/base64.Encoding).Strict"] = func(c *icall) ([]*State, bool) {
+		o, ok := c.args[0].(OpaqueObj)
+		if !ok {
+			panic(engineErr("Strict() of an unknown base64 encoding"))
+		}
+		if !strings.HasSuffix(o.ID, ".Strict") {
+			o.ID += ".Strict"
+		}
+		c.set(c.s.alloc(o))
+		return nil, false
 	}
 	I["(*encoding/base64.Encoding).EncodeToString"] = enc
 	I["(*encoding/base64.Encoding).DecodeString"] = dec
